@@ -468,7 +468,11 @@ func project(ro sdktrace.ReadOnlySpan, ended bool, offered map[string]AAttr, rep
 // run executes ops on a fresh span under lim and returns the projection of the exported span.
 // A leading Start operation carries the options the span is created with. Calls after End are
 // part of ops; if ops contain no End the span is ended to obtain the export.
-func run(lim Lim, ops []Op, rep int) (st State, panicked any) {
+func run(lim Lim, ops []Op, rep int) (st State, panicked any) { return runP(lim, ops, rep, false) }
+
+// runP: with peek the live span is read through every accessor after Start and after every call
+// (reading is a no-op of the model, so the harness may do it anywhere).
+func runP(lim Lim, ops []Op, rep int, peek bool) (st State, panicked any) {
 	defer func() {
 		if r := recover(); r != nil {
 			panicked = r
@@ -488,6 +492,9 @@ func run(lim Lim, ops []Op, rep int) (st State, panicked any) {
 	}
 	_, span := tp.Tracer("c04").Start(context.Background(), "n0", sopts...)
 	ended := false
+	if peek {
+		apply(span, Op{Op: "Peek"}, rep)
+	}
 	for _, op := range ops {
 		if op.Op == "SetAttributes" && !ended {
 			for _, a := range op.Attrs {
@@ -495,6 +502,9 @@ func run(lim Lim, ops []Op, rep int) (st State, panicked any) {
 			}
 		}
 		apply(span, op, rep)
+		if peek {
+			apply(span, Op{Op: "Peek"}, rep)
+		}
 		if op.Op == "End" {
 			ended = true
 		}
@@ -645,6 +655,16 @@ func replay(args []string) {
 		}
 		if d := diff(got, want); d != "" {
 			res.AddMismatch(vh.Mismatch{Kind: "state", Case: caseSig(lim, ops, d), Path: ops[:len(ops)-1], Act: ops[len(ops)-1], Want: want, Got: got, Detail: d})
+		} else if (int64(i)+vh.Seed())%3 == 0 {
+			// every third edge a second time with the live span read after every call
+			got, p = runP(lim, ops, *rep, true)
+			res.Executed++
+			res.Count("edges_replayed_with_peeks", 1)
+			if p != nil {
+				res.AddMismatch(vh.Mismatch{Kind: "panic", Case: caseSig(lim, ops, "panic"), Path: ops, Detail: "with peeks: " + fmt.Sprint(p)})
+			} else if d := diff(got, want); d != "" {
+				res.AddMismatch(vh.Mismatch{Kind: "state", Case: caseSig(lim, ops, d), Path: ops[:len(ops)-1], Act: ops[len(ops)-1], Want: want, Got: got, Detail: "with peeks after every call: " + d})
+			}
 		}
 		if want.Dropped > 0 {
 			res.Count("edges_with_dropped_attrs", 1)
@@ -705,7 +725,7 @@ func randLim(r *rand.Rand) Lim {
 	pick := func(max int) int {
 		switch r.Intn(5) {
 		case 0:
-			return -1
+			return -1 - r.Intn(3)*r.Intn(2) // any negative value means unlimited
 		case 1:
 			return 0
 		}
